@@ -97,7 +97,7 @@ def eval_c01(item):
             histories.append(("kw", False, order))
     if variants in ("styles", "both"):
         ls = sorted(G["nodes"])
-        for style, rev in (("kw", True), ("assign", False), ("assign", True)):
+        for style, rev in (("kw", True), ("assign", False), ("assign", True), ("assign-peek", False)):
             histories.append((style, rev, ls))
     exp_cache = {}
 
@@ -820,6 +820,22 @@ def eval_c13(item):
         U.LOG.clear()
         if route == "instance":
             inst = robj.instance(DirectoryContext(Path(Gr._STATE["dir"]) / "inst"))
+        elif route == "store":
+            # the public ObjectStore shared by several instance() calls: first a sub-configuration, then the root, then the
+            # root again - everything must still be built / initialised / executed once
+            from experimaestro.core.objects import ObjectStore
+            store = ObjectStore()
+            ctx = DirectoryContext(Path(Gr._STATE["dir"]) / "inst")
+            subs = [l for l in _reach_runtime(G, submittable) if l != root and "output_of" not in G["nodes"][l] and l in B.objs]
+            if subs:
+                sub_obj = B.objs[subs[-1]]
+                first = sub_obj.instance(ctx, objects=store)
+            inst = robj.instance(ctx, objects=store)
+            again = robj.instance(ctx, objects=store)
+            if again is not inst:
+                out["problems"].append({"kind": "store-returns-other-object"})
+            if subs and store.retrieve(id(sub_obj)) is not first:
+                out["problems"].append({"kind": "store-rebuilt-sub-object"})
         else:
             if not robj.__xpm__._sealed:
                 robj.__xpm__.seal(DirectoryContext(Path(Gr._STATE["dir"]) / "sealed"))
@@ -851,14 +867,14 @@ def eval_c13(item):
             if missing:
                 out["problems"].append({"kind": "post-init-before-parameters", "cls": type(e[1]).__name__, "missing": missing})
         # number of runtime objects
-        if route == "instance":
+        if route in ("instance", "store"):
             expected_objects = len(_reach_runtime(G, submittable))
         else:
             expected_objects = len(_reach_saved(G, submittable))
         if len(set(ids)) != expected_objects:
             out["problems"].append({"kind": "object-count", "created": len(set(ids)), "configurations": expected_objects})
         # pre-tasks once each; init tasks (params route) once each, in order, after all pre-tasks
-        if route == "instance":
+        if route in ("instance", "store"):
             pre_labels = [p for l in _reach_runtime(G, submittable) for p in G["nodes"][l].get("pre", [])]
         else:
             pre_labels = [p for l in _reach_saved(G, submittable) for p in G["nodes"][l].get("pre", [])]
